@@ -44,8 +44,16 @@ type Change struct {
 func (c *compiler) compileChange(achange *parse.Change) *Change {
 	meta := c.compileMeta(achange.Meta)
 
-	mc := newMatcherCompiler(c.fset, meta, achange.Patch.Pos(), achange.Patch.End())
-	rc := newReplacerCompiler(c.fset, meta, achange.Patch.Pos(), achange.Patch.End())
+	// Statement patches get an implicit "..." before their first and after
+	// their last statement, identified by these two positions. An explicit
+	// "..." at the very beginning of the patch (possible on an unprefixed
+	// first line) would share the start position and get mixed up with the
+	// implicit one, so use the position of the line break that precedes the
+	// patch: nothing in the patch can be there.
+	patchStart, patchEnd := achange.Patch.Pos()-1, achange.Patch.End()
+
+	mc := newMatcherCompiler(c.fset, meta, patchStart, patchEnd)
+	rc := newReplacerCompiler(c.fset, meta, patchStart, patchEnd)
 
 	matcher := mc.compileFile(achange.Patch.Minus)
 	replacer := rc.compileFile(achange.Patch.Plus)
